@@ -2,6 +2,36 @@
 
 WORLD_RULE = "rapid-generated history applied to the real tree and to the reference model; "
 
+import sys, os
+sys.path.insert(0, os.path.dirname(os.path.abspath(__file__)))
+
+_ASSUME = ["reference model in /verif/harness/ref.go (anchored by the repository's TestTreeHash vectors)", "rapid v1.3.0", "Go toolchain"]
+
+
+def _world(test, rule, q, th, level_q=40, level_t=2000, extra_assume=()):
+    return {
+        "level": "exploration",
+        "rule": rule,
+        "assumptions": _ASSUME + list(extra_assume),
+        "quick": [{"test": test, "checks": q, "shards": 6},
+                  {"test": test, "checks": level_q, "shards": 1, "env": {"VERIF_LEVEL": "1"}}],
+        "thorough": [{"test": test, "checks": th, "shards": 15},
+                     {"test": test, "checks": level_t, "shards": 1, "env": {"VERIF_LEVEL": "1"}}],
+    }
+
+
+def _rules():
+    # the rule texts live next to the generators (harness/specs_test.go: worldSpec.Rule); mirrored here for the evidence file
+    import re
+    txt = open(os.path.join(os.path.dirname(os.path.abspath(__file__)), "harness", "specs_test.go")).read()
+    out = {}
+    for m in re.finditer(r'Prop:\s*"(C\d+)".*?Rule:\s*"((?:[^"\\]|\\.)*)"', txt, re.S):
+        out[m.group(1)] = m.group(2)
+    return out
+
+
+_R = _rules()
+
 CHECKS = {
     "C01": {
         "level": "exploration",
@@ -14,4 +44,11 @@ CHECKS = {
         "thorough": [{"test": "TestC01", "checks": 40000, "shards": 15},
                      {"test": "TestC01", "checks": 3000, "shards": 1, "env": {"VERIF_LEVEL": "1"}}],
     },
+    "C02": _world("TestC02", _R["C02"], 700, 40000),
+    "C03": _world("TestC03", _R["C03"], 250, 12000, extra_assume=["ics23/go v0.11.0 verifier (IavlSpec)"]),
+    "C04": _world("TestC04", _R["C04"], 300, 15000, extra_assume=["ics23/go v0.11.0 verifier (IavlSpec)"]),
+    "C07": _world("TestC07", _R["C07"], 600, 40000),
+    "C12": _world("TestC12", _R["C12"], 700, 40000),
+    "C13": _world("TestC13a", _R["C13"], 700, 40000),
+    "C14": _world("TestC14", _R["C14"], 500, 30000),
 }
